@@ -14,7 +14,7 @@ IO_ENCODE = r'^ntex_io::.*IoRef>::encode$'
 def keyed_handoff(F, R, ver):
     b = F.one(r'^%s::shared::MqttShared::release_publish$' % ver)
     # where does the returned receiver come from?
-    oks = [(bi, j, s) for bi, j, s in agg_sites(b, r'^std::result::Result$', 'Ok') if s['lhs']['l'] == 0]
+    oks = [(bi, j, s) for bi, j, s in agg_sites(b, r'^std::result::Result$', 'Ok') if s['lhs']['l'] in b.ret_locals]
     wide = re.compile(TRANSPARENT_CALLS.pattern[:-2] + r'|take|remove|get_mut|remove_entry)$')
     rx_takes = [(xb, t) for xb, t in b.calls() if re.search(r'::(take|remove|remove_entry)$', callee_name(t) or '') and (call_recv_path(b, t, 0) or ('',))[-1] == 'rx']
     R.ob('C14.keyed-handoff', '%s|release_publish|Ok-exits' % ver, len(oks) >= 1 or bool(rx_takes), 'found %d Ok results and %d accesses of the receiver store' % (len(oks), len(rx_takes)))
